@@ -119,7 +119,8 @@ DOM = [[0, 1], [10, -10], [0.13, 9.7], [-1, 3], [-2, 3], [0, 1.0000000003], [1.5
 RNG = [[0, 1], [100, 0], [-5, 5], [-1, 640], [-2, 640], [0, 1.0000000005]]
 OPS = ([("domain", d) for d in DOM] + [("range", r) for r in RNG]
        + [("clamp", True), ("clamp", False), ("nice", None), ("nice", 3), ("nice", 2), ("interpolate", None), ("copy", None), ("deepcopy", None), ("rmw-range", None), ("rmw-domain", None),
-          ("alias-range", RNG[1]), ("alias-domain", DOM[3]), ("iter-range", RNG[2]), ("iter-domain", DOM[2])])
+          ("alias-range", RNG[1]), ("alias-domain", DOM[3]), ("iter-range", RNG[2]), ("iter-domain", DOM[2]),
+          ("alias-domain", [-1.0, 3.5]), ("alias-range", [0.0, 640.5]), ("share-domain", None), ("share-range", None)])
 CORE_OPS = ([("domain", d) for d in DOM[:4]] + [("range", r) for r in RNG[:4]]
             + [("clamp", True), ("clamp", False), ("nice", None), ("nice", 3), ("copy", None)])
 PROBES = (-1, 0, .5, 1, 3, 9.7, 20)
@@ -147,6 +148,10 @@ def build(hist):
         elif op == "deepcopy":  # a duplicate made through the standard copy protocol (option dicts holding a scale get deep-copied)
             import copy as _copy
             pool.append(_copy.deepcopy(s))
+        elif op == "share-domain":  # another scale is given what this one's getter returns (lists of floats, as they are)
+            pool.append(LinearScale().domain(s.domain()).range(list(s.range())))
+        elif op == "share-range":
+            pool.append(LinearScale().domain(list(s.domain())).range(s.range()))
         elif op == "rmw-range":  # read-modify-write: take the list the getter returns, edit it, hand it back
             r = s.range()
             r.reverse()
@@ -247,7 +252,7 @@ def bfs(prefix, depth, acc, ops=None):
         pool = build(h)
         for i in range(len(pool)):
             for op, arg in ops:
-                if op in ("copy", "deepcopy") and len(pool) >= 3:
+                if op in ("copy", "deepcopy", "share-domain", "share-range") and len(pool) >= 3:
                     continue
                 nh = h + [(i, op, arg)]
                 bad = check_history(nh)
